@@ -2,13 +2,14 @@ package main
 
 import (
 	"fmt"
-	"github.com/koestler/go-victron/bleparser"
-	"github.com/koestler/go-victron/veconst"
+	"github.com/koestler/go-victron/ble"
 )
 
 func main() {
-	_, err := bleparser.DecodeSolarChargeRecord(make([]byte, 3))
-	fmt.Println(err)
-	e, err := veconst.InverterStateFactory.NewEnum(257)
-	fmt.Println(e, err)
+	raw := []byte{0x10, 0x02, 0x53, 0xA0, 0x01, 0x34, 0x12, 0xAB, 1, 2, 3, 4, 5, 6, 7, 8, 9, 10, 11, 12}
+	l, p := ble.VerifHandle(make([]byte, 16), raw, false)
+	fmt.Println(p)
+	fmt.Print(l)
+	fmt.Println(ble.VerifMatch([][]byte{{0xd4, 0x9d}}, "D4:9D:ZZ"))
+	fmt.Println(ble.VerifMatch([][]byte{{0xd4, 0x9d}}, "d4:9D"))
 }
